@@ -1590,3 +1590,120 @@ def generate_alias(src_dir):
             "import Serif.Prelude\n\nset_option linter.unusedVariables false\n\nnamespace Serif.Gen.TA\nopen Serif\n\n"
             + "\n\n".join(parts) + "\n\nend Serif.Gen.TA\n")
     return text, errors
+
+
+# ---------------------------------------------------------------------------------------------
+# display._format_column: the symmetric preview and the per-value dispatch chain
+# ---------------------------------------------------------------------------------------------
+def translate_format_column(src):
+    tree = ast.parse(src)
+    f = find_func(tree, "_format_column")
+    body = [s for s in f.body if not (isinstance(s, ast.Expr) and isinstance(s.value, ast.Constant))]
+    # 1. the preview
+    pv = [s for s in body if isinstance(s, ast.If) and any(isinstance(t, ast.Name) and t.id == "preview"
+                                                           for a in ast.walk(s) if isinstance(a, ast.Assign) for t in a.targets)]
+    if len(pv) != 1 or not any(ast.unparse(s) == "vals = col._underlying" for s in body):
+        raise TranslateError("_format_column: preview block")
+    pv = pv[0]
+
+    def lst(node):
+        """list-valued expression over `vals`"""
+        if isinstance(node, ast.BinOp) and isinstance(node.op, ast.Add):
+            return f"{lst(node.left)} ++ {lst(node.right)}"
+        if isinstance(node, ast.Call) and ast.unparse(node.func) == "list" and len(node.args) == 1:
+            return lst(node.args[0])
+        if isinstance(node, ast.List) and len(node.elts) == 1 and isinstance(node.elts[0], ast.Constant) and node.elts[0].value == "...":
+            return "[Shown.ellipsis]"
+        if isinstance(node, ast.Name) and node.id == "vals":
+            return "vals.map Shown.cell"
+        if isinstance(node, ast.Subscript) and ast.unparse(node.value) == "vals" and isinstance(node.slice, ast.Slice) and node.slice.step is None:
+            lo, hi = node.slice.lower, node.slice.upper
+            if lo is None and hi is not None:
+                return f"(vals.take {nat(hi)}).map Shown.cell"
+            if hi is None and lo is not None:
+                return f"(vals.drop {nat(lo)}).map Shown.cell"      # a start that is not negative (guarded by the test)
+        raise TranslateError("_format_column: list expression " + ast.unparse(node)[:50])
+
+    def nat(node):
+        if isinstance(node, ast.Name) and node.id == "max_preview":
+            return "max_preview"
+        if isinstance(node, ast.Constant) and isinstance(node.value, int) and node.value >= 0:
+            return str(node.value)
+        if isinstance(node, ast.Call) and ast.unparse(node) == "len(vals)":
+            return "vals.length"
+        if isinstance(node, ast.BinOp) and isinstance(node.op, (ast.Mult, ast.Sub, ast.Add)):
+            sym = {"Mult": "*", "Sub": "-", "Add": "+"}[type(node.op).__name__]
+            return f"({nat(node.left)} {sym} {nat(node.right)})"
+        raise TranslateError("_format_column: size expression " + ast.unparse(node)[:40])
+
+    if not (isinstance(pv.test, ast.Compare) and len(pv.test.ops) == 1 and isinstance(pv.test.ops[0], ast.Gt)
+            and len(pv.body) == 1 and len(pv.orelse) == 1):
+        raise TranslateError("_format_column: preview test")
+    out = ["/-- translated from the first half of `display._format_column` (`vals[len(vals) - max_preview:]` is `drop`: the start is\n"
+           "    not negative under the test) -/\n"
+           "def previewT {α : Type} (max_preview : Nat) (vals : List α) : List (Shown α) :=\n"
+           f"  if {nat(pv.test.left)} > {nat(pv.test.comparators[0])} then\n    {lst(pv.body[0].value)}\n  else\n    {lst(pv.orelse[0].value)}"]
+    # 2. the per-value chain
+    loops = [s for s in body if isinstance(s, ast.For) and ast.unparse(s.iter) == "preview" and ast.unparse(s.target) == "v"]
+    if len(loops) != 1 or len(loops[0].body) != 1 or not isinstance(loops[0].body[0], ast.If):
+        raise TranslateError("_format_column: value loop")
+
+    def label(stmts, none_excluded):
+        stmts = [s for s in stmts if not (isinstance(s, ast.Expr) and isinstance(s.value, ast.Constant))]
+        if len(stmts) == 1 and isinstance(stmts[0], ast.Expr) and ast.unparse(stmts[0]).startswith("out.append("):
+            a = ast.unparse(stmts[0].value.args[0])
+            if a in ("'...'", "'None'"):
+                return f'(Fmt.lit "{a[1:-1]}")'
+            if a == "str(v)" or (a == "str(v) if v is not None else 'None'" and none_excluded):
+                return "Fmt.str"
+            if a == "v.isoformat()":
+                return "Fmt.iso"
+            if a == "repr(v)":
+                return "Fmt.repr"
+        txt = "\n".join(ast.unparse(s) for s in stmts)
+        if "is_whole = v == v and v not in (float('inf'), float('-inf')) and (v == int(v))" in txt \
+                and "out.append(f'{v:.1f}' if is_whole else f'{v:g}')" in txt and "except OverflowError" in txt:
+            return "Fmt.floatRule"
+        raise TranslateError("_format_column: branch body " + txt[:60])
+
+    def cond(node):
+        t = ast.unparse(node)
+        if t == "isinstance(v, str) and v == '...'":
+            return "isEllipsis", False
+        if t == "v is None":
+            return "isNone", True
+        if t == "isinstance(v, str)":
+            return "isStr", False
+        for k in ("float", "int", "date", "str"):
+            if t == f"col._dtype and col._dtype.kind is {k}":
+                return f"(kind == some Kind.{k})", False
+        raise TranslateError("_format_column: condition " + t[:50])
+
+    def chain(node, ne, ind):
+        pad = " " * ind
+        c, excl = cond(node.test)
+        els = node.orelse
+        tail = chain(els[0], ne or excl, ind).lstrip() if len(els) == 1 and isinstance(els[0], ast.If) else label(els, ne or excl)
+        return pad + f"if {c} then {label(node.body, ne)}\n" + pad + "else " + tail
+
+    out.append("/-- which formatting rule `_format_column` applies to one previewed value: the `if`/`elif` chain of its loop, in order\n"
+               "    (`isEllipsis`: `isinstance(v, str) and v == '...'`; `kind`: the column's `_dtype.kind`, `none` without dtype) -/\n"
+               "def fmtBranchT (kind : Option Kind) (isEllipsis isNone isStr : Bool) : Fmt :=\n" + chain(loops[0].body[0], False, 2))
+    return out
+
+
+def generate_repr(src_dir):
+    """fifth generated file: display._format_column"""
+    parts, errors = [], []
+    try:
+        parts += translate_format_column(open(os.path.join(src_dir, "display.py")).read())
+    except Exception as ex:
+        errors.append(("format_column", f"{type(ex).__name__}: {ex}"))
+        parts.append(f"-- format_column: not translated ({type(ex).__name__})")
+    text = ("/- GENERATED by harness/py2lean.py from /repo's working tree — do not edit.\n"
+            "   The preview and the per-value dispatch of display._format_column, translated; equivalence theorems in Serif/Tie/Repr.lean. -/\n"
+            "import Serif.Model.Repr\n\nset_option linter.unusedVariables false\n\nnamespace Serif.Gen.TD\nopen Serif Serif.Repr\n\n"
+            "/-- the formatting rules of `_format_column` (labels; `Serif/Tie/Repr.lean` interprets them on the model's `Cell`) -/\n"
+            "inductive Fmt where\n  | lit (s : String) | floatRule | str | iso | repr\n  deriving DecidableEq, Repr\n\n"
+            + "\n\n".join(parts) + "\n\nend Serif.Gen.TD\n")
+    return text, errors
